@@ -48,18 +48,7 @@ Proof.
   apply tabulate_ext. intros y x Hy Hx. rewrite crop_into_spec by assumption. rewrite crop_px_spec. reflexivity.
 Qed.
 
-(* ---- call histories: state = contents of the crop buffer slots and of the output arrays ---- *)
-Record fstate := { slots : Z -> Z -> Z -> Z; outs : Z -> peak_result }.
-
-Definition step_peak b one lg fy fx f c mask (peaks : Z -> Z * Z) (bc : Z) (st : fstate) (i : Z) : fstate :=
-  let j := slot_of bc i in
-  let rw := fast_peak_via_slot b one lg fy fx f c mask (peaks i) (slots st j) in
-  {| slots := fun k => if k =? j then snd rw else slots st k;
-     outs := fun k => if k =? i then fst rw else outs st k |}.
-
-Definition run_call b one lg fy fx f c mask peaks n bc (st : fstate) : fstate :=
-  fold_left (step_peak b one lg fy fx f c mask peaks bc) (zseq n) st.
-
+(* ---- call histories (state machine defined in Model/Pipeline.v) ---- *)
 Lemma run_call_outs_nat b one lg fy fx f c mask peaks bc st : 0 <= fy -> 0 <= fx -> 0 <= c -> forall (k : nat) i,
   outs (fold_left (step_peak b one lg fy fx f c mask peaks bc) (zseq (Z.of_nat k)) st) i =
   if inb (Z.of_nat k) i then fast_peak one lg fy fx f c mask (peaks i) else outs st i.
@@ -95,11 +84,7 @@ Proof.
   assert (E : inb n i = true) by (apply inb_true; assumption). rewrite E. reflexivity.
 Qed.
 
-(* a history is a list of calls; the state after the history is arbitrary as far as the next call is concerned *)
-Record call := { k_fy : Z; k_fx : Z; k_f : frame; k_peaks : Z -> Z * Z; k_n : Z; k_bc : Z; k_backend : backend }.
-Definition do_call one lg c mask (st : fstate) (k : call) : fstate :=
-  run_call (k_backend k) one lg (k_fy k) (k_fx k) (k_f k) c mask (k_peaks k) (k_n k) (k_bc k) st.
-
+(* the state after a history is arbitrary as far as the next call is concerned *)
 Theorem last_call_of_any_history one lg c mask (hist : list call) (k : call) st0 st_fresh i :
   0 <= k_fy k -> 0 <= k_fx k -> 0 <= c -> 0 <= k_n k -> 0 <= i < k_n k ->
   outs (do_call one lg c mask (fold_left (do_call one lg c mask) hist st0) k) i =
